@@ -17,3 +17,36 @@ Theorem C05_fix_update_equals_eq_row : forall (a : var -> Q) l1 c l2 rs ob mx v,
    sat a {| cols := l1 ++ c :: l2; rows := mkrow [(cvar c, 1)] SEq v :: rs; obj := ob; maximize := mx |}).
 Proof. exact milp_fix_eq_row. Qed.
 Print Assumptions C05_fix_update_equals_eq_row.
+
+(* ---- safe-path fixing never changes feasibility of the k-model (DAG, kFlowDecomp; SafeFix.v) ----
+   AbstractPathModelDAG fixes list number j of paths_to_fix into layer j (x[e, j] = 1 for each of its edges; through bounds,
+   which by the two theorems above equals adding the rows).  If every list is SAFE (contained in some path of every
+   decomposition: C06's theorems) and the lists are pairwise INCOMPATIBLE (no simple path contains two of them: they are
+   chosen on an edge antichain; decided per instance by C06's verified decider), the model with the fixing rows is feasible
+   exactly when the model without them is -- for every graph, flow, k, ignore set, weight type and subpath constraints. *)
+From FP Require Import PathEnc PathEncProofs PathEncComplete SafeFix.
+Theorem C05_safe_path_fixing_preserves_feasibility :
+  forall (I : kfd_inst) (rank : node -> nat) (Rm : nat) (Ss : list (list PathEnc.edge)),
+  PathEncProofs.wf_graph (p_graph (f_base I)) -> p_allow_empty (f_base I) = false ->
+  (forall u v, In (u, v) (g_edges (p_graph (f_base I))) -> (rank u < rank v)%nat) -> (forall v, (rank v <= Rm)%nat) ->
+  (forall c e, In c (p_cons (f_base I)) -> In e c -> In e (g_edges (p_graph (f_base I))) /\ (0 <= elen (f_base I) e)%Q) ->
+  (length Ss <= p_k (f_base I))%nat ->
+  (forall P w, decomposition I P w -> constraints_covered (f_base I) P ->
+     forall j S, nth_error Ss j = Some S -> exists i, In i (layers (p_k (f_base I))) /\ incl S (EulerProofs1.pairs (P i))) ->
+  (forall j j' S S', j <> j' -> nth_error Ss j = Some S -> nth_error Ss j' = Some S' ->
+     forall l, NoDup l -> incl S (EulerProofs1.pairs l) -> incl S' (EulerProofs1.pairs l) -> False) ->
+  ((exists a, sat a (with_rows (encode_kfd I) (fix_rows Ss))) <-> (exists a, sat a (encode_kfd I))).
+Proof. exact safe_fix_preserves_feasibility. Qed.
+Print Assumptions C05_safe_path_fixing_preserves_feasibility.
+
+(* non-vacuity: on the diamond of PathEncExample.v the lists [(0,1)] and [(0,2)] are safe and incompatible, and the 2-model with
+   both fixed (into layers 0 and 1) is feasible *)
+From FP Require Import PathEncExample.
+Example C05_fixing_premises_satisfiable :
+  (forall P w, decomposition (exI 2) P w -> constraints_covered (f_base (exI 2)) P ->
+     forall j S, nth_error exSs j = Some S -> exists i, In i (layers (p_k (f_base (exI 2)))) /\ incl S (EulerProofs1.pairs (P i))) /\
+  (forall j j' S S', j <> j' -> nth_error exSs j = Some S -> nth_error exSs j' = Some S' ->
+     forall l, NoDup l -> incl S (EulerProofs1.pairs l) -> incl S' (EulerProofs1.pairs l) -> False) /\
+  (exists a, sat a (with_rows (encode_kfd (exI 2)) (fix_rows exSs))).
+Proof. exact (conj ex_fix_safe (conj ex_fix_incompatible ex_fixed_model_feasible)). Qed.
+Print Assumptions C05_fixing_premises_satisfiable.
